@@ -13,7 +13,7 @@ Lemma stages_rewrite i mf : stages i mf ->
     (if i_emptydev i then Ok m3 else bind (run_ops (i_tree i) devsetup_ops m3) (extend_dev (i_tree i) ext_lines)) = Ok m4 /\
     run_ops (i_tree i) magic_ops m4 = Ok m5 /\
     run_ops (i_tree i) stddir_ops (exclude (unstaged all m1) m5) = Ok m7 /\
-    run_ops (i_tree i) (script_ops (i_script i)) (add_missing_dirs m7) = Ok m9 /\ mf = add_missing_dirs m9.
+    run_ops (i_tree i) (user_script i) (add_missing_dirs m7) = Ok m9 /\ mf = add_missing_dirs m9.
 Proof.
   intros [sel all m1 m2 m3 m4 m5 m7 m9 E_sel E1 E_all E2 E3 E4 E5 E7 E9 Ef].
   rewrite static_dev_eq in E4. exists sel, all, m1, m2, m3, m4, m5, m7, m9. repeat split; assumption.
@@ -23,7 +23,7 @@ Qed.
    an omit line was named again by a later line, or is the parent directory of a member (or is
    the root of the archive) *)
 Theorem omit_removes i mf : good_input i -> stage_map i = Ok mf ->
-  forall pre nm w post k, script_ops (i_script i) = pre ++ OOmit nm w :: post ->
+  forall pre nm w post k, user_script i = pre ++ OOmit nm w :: post ->
   omit_hit nm w k = true -> mem k mf = true ->
   ops_name (i_tree i) post k \/ (exists k0, mem k0 mf = true /\ In k (nrparents k0)) \/ k = root_path.
 Proof.
@@ -43,7 +43,7 @@ Qed.
 (* membership, "if" parts *)
 Theorem member_if_recorded i mf sel : stage_map i = Ok mf ->
   all_contents (selected (i_pkgs i)) = Ok sel ->
-  forall n, In n sel -> lstat (i_tree i) n <> None -> omits_none (script_ops (i_script i)) n -> mem n mf = true.
+  forall n, In n sel -> lstat (i_tree i) n <> None -> omits_none (user_script i) n -> mem n mf = true.
 Proof.
   intros Hm Es n Hn Hl Ho. apply stage_map_stages, stages_rewrite in Hm.
   destruct Hm as (sel' & all & m1 & m2 & m3 & m4 & m5 & m7 & m9 & E_sel & E1 & E_all & E2 & E3 & E4 & E5 & E7 & E9 & ->).
@@ -52,7 +52,7 @@ Proof.
            sel all m1 m2 m3 m4 m5 m7 m9 E1 E2 E3 E4 E5 E7 E9 n Hn Hl Ho).
 Qed.
 Theorem member_if_user i mf : stage_map i = Ok mf ->
-  forall pre li post n, script_ops (i_script i) = pre ++ OAdd li :: post ->
+  forall pre li post n, user_script i = pre ++ OAdd li :: post ->
   In n (op_targets (i_tree i) li) -> (li_skip li = true -> lstat (i_tree i) n <> None) ->
   omits_none post n -> mem n mf = true.
 Proof.
@@ -60,6 +60,33 @@ Proof.
   destruct Hm as [sel all m1 m2 m3 m4 m5 m7 m9 E_sel E1 E_all E2 E3 E4 E5 E7 E9 Ef]. subst mf.
   exact (user_member i m7 m9 E9 pre li post n Eu Hn Hs Ho).
 Qed.
+
+(* a src= line that no later line supersedes: its name is a regular-file member of its own --
+   neither a hard link nor what a hard link refers to -- however many links the source inode has
+   and whichever of them are staged *)
+Theorem src_entry_regular i ms : stage_list i = Ok ms ->
+  forall pre li s post, user_script i = pre ++ OAdd li :: post -> li_src li = Some s ->
+  omits_none post (li_name li) -> ~ ops_name (i_tree i) post (li_name li) ->
+  (exists x, In x ms /\ m_name x = li_name li) /\
+  forall x, In x ms -> (m_name x = li_name li -> m_kind x = KReg) /\ (m_kind x = KLink -> m_link x <> li_name li).
+Proof.
+  intros H pre li s post Eu Hs Ho Hn. apply stage_list_inv in H as (mf & Hm & ->). apply stage_map_stages in Hm.
+  destruct Hm as [sel all m1 m2 m3 m4 m5 m7 m9 E_sel E1 E_all E2 E3 E4 E5 E7 E9 Ef]. subst mf.
+  pose proof (src_final i m7 m9 E9 pre li s post Eu Hs Ho Hn) as Hf. split.
+  - apply finalize_has. unfold mem. now rewrite Hf.
+  - intros x Hx. destruct (finalize_nogroup _ _ Hf x Hx) as [K1 K2]. split; [exact K1|]. intros Hk. now destruct (K2 Hk).
+Qed.
+(* the line syntax: what parse_line makes of src= *)
+Lemma src_parse_facts :
+  map parse_line [bs "file /etc/motd src=$$stageroot/usr/share/skel/motd mod=0600"; bs "file /etc/vimrc src=/etc/vim/vimrc";
+                  bs "file /etc/x src=/a src=/b"; bs "file /etc/* src=/a"; bs "symlink /etc/l src=/a"]
+  = [OAdd (MkLI TFile (bs "/etc/motd") false false false false (Some (SRoot (bs "/usr/share/skel/motd"))));
+     OAdd (MkLI TFile (bs "/etc/vimrc") false false false false (Some (SAbs (bs "/etc/vim/vimrc") None)));
+     OErr; OErr; OErr]
+  /\ resolve_op [(bs "/etc/vim/vimrc", NFile (Some 3))]
+       (OAdd (MkLI TFile (bs "/etc/vimrc") false false false false (Some (SAbs (bs "/etc/vim/vimrc") None))))
+     = OAdd (MkLI TFile (bs "/etc/vimrc") false false false false (Some (SAbs (bs "/etc/vim/vimrc") (Some (NFile (Some 3)))))).
+Proof. vm_compute. auto. Qed.
 
 (* membership, "only if": every member was recorded for a selected package, or is a symlink of
    the tree that RecoverMissingLinks looks at, or a VDB entry of a selected package, or a static
